@@ -574,6 +574,9 @@ func (x *Exec) VerifyRoot() ([]*Obligation, error) {
 			oos := false
 			env.outOfScope = &oos
 			for _, c := range x.rootC.Ensures {
+				if c.Assumed {
+					continue
+				}
 				oos = false
 				t, err := env.evalBool(c.E)
 				if err != nil {
